@@ -50,6 +50,11 @@ def _seq_of_nodes(t):
     return False
 
 
+def _may_node(t):
+    """the value may be a tree node (other possibilities unknown): enough for the unambiguous hashing calls"""
+    return t is not None and "node" in t
+
+
 def lint_function(func, ft):
     """Yield Hit objects for one analysed function.  Also returns counts via
     the ``stats`` attribute of the generator's final StopIteration (unused)."""
@@ -235,7 +240,8 @@ def _lint_call(n, ty, ft, hit):
         if m in EQ_SEARCH_METHODS and args and any(has_node(ty(a)) for a in args if not isinstance(a, ast.Starred)) \
                 and not has_node(tr):
             hit("T2", n, ".%s(node): searches by __eq__" % m)
-        if m in HASH_METHODS and m not in ("pop", "get") and args and has_node(ty(a0)) and not has_node(tr) \
+        if m in HASH_METHODS and m not in ("pop", "get") and args and (has_node(ty(a0)) or (m in ("setdefault", "add", "fromkeys")
+                                                                                       and _may_node(ty(a0)))) and not has_node(tr) \
                 and (res is None or res.kind in ("method", "unknown")):
             hit("T4", n, ".%s(node): hashes the node" % m)
         if m in ("get", "pop") and a0 is not None and has_node(ty(a0)) and not has_node(tr) and not is_node_seq(tr) \
